@@ -1069,7 +1069,10 @@ func tableBoxesChildren(box Box, children []Box) Box {
 	}
 
 	// rule 1.3
-	if box.Box().tabularContainer && len(children) >= 2 {
+	if box.Box().tabularContainer && len(children) == 1 && isWhitespace(children[0], nil) {
+		// White space with no sibling is removed as well.
+		children = nil
+	} else if box.Box().tabularContainer && len(children) >= 2 {
 		// Last child
 		internal, text := children[len(children)-2], children[len(children)-1]
 
